@@ -54,6 +54,14 @@ where
                 "exactly one unit with the empty symbol".into(),
             );
         }
+        if Q::unit_from_symbol("") != Some(u) || <Q::UnitType as Unit>::from_symbol("") != Some(u) {
+            rep.violation(
+                "C08/dimensionless-unit",
+                case(key, "unit_from_symbol(\"\")", json!({})),
+                format!("{:?} / {:?}", Q::unit_from_symbol(""), <Q::UnitType as Unit>::from_symbol("")),
+                "the only unit, whose symbol is empty, through both lookups".into(),
+            );
+        }
         rep.inc("dimensionless_clause");
     }
     for &a in &alpha {
